@@ -6,18 +6,18 @@ On every run the translation is regenerated (both header variants).  If it is te
 main build are theorems about this tree.  If it differs, the proofs are re-checked against the new translation in a scratch copy
 of the development (symbolic links to the compiled files, so nothing under coq/ is touched and runs against different trees can
 proceed in parallel); a failure there is a broken proof obligation of the calling property."""
-import os, sys, json, hashlib, subprocess, shutil, difflib, glob
+import concurrent.futures, os, sys, json, hashlib, subprocess, shutil, difflib, glob
 from . import common
 
 LEAF_PIDS = ("C08", "C09", "C10", "C12", "C13", "C18", "C20")
 GEN = os.path.join(common.COQ, "Generated", "LeafCode.v")
 # C13 and C20 are about the translated functions themselves; the machine-level properties only rest on the constants (contain(), UNIT_COUNT)
-DEPENDENTS = {"C13": ["Proofs/LeafCodeBits.v", "Proofs/LeafCodeStream.v", "Proofs/LeafCodeWide.v", "Proofs/LeafCodeFields.v", "Proofs/LeafCodeBuffer.v"],
+DEPENDENTS = {"C13": [("Proofs/LeafCodeBits.v", "Proofs/LeafCodeStream.v", "Proofs/LeafCodeBuffer.v"), "Proofs/LeafCodeWide.v", "Proofs/LeafCodeFields.v"],
               "C20": ["Proofs/LeafConsts.v", "Proofs/LeafCodeProofs.v", "Proofs/LeafCodeArrays.v", "Proofs/LeafCodeStatic.v"],
-              "C10": ["Proofs/LeafCodeTaskList.v"],
+              "C10": ["Proofs/LeafCodeTaskList.v", "Proofs/LeafCodePlan.v", ("Proofs/LeafCodePlanRemove.v", "Proofs/LeafCodePlanAppend.v"), "Proofs/LeafCodePlanInv.v"],
               # "never an index outside an array, never an undefined shift or signed overflow" is what every src_ theorem establishes on the way: the byte-level
               # stream code and the slot allocator are the places where the library computes indices into storage
-              "C18": ["Proofs/LeafCodeStream.v", "Proofs/LeafCodeWide.v", "Proofs/LeafCodeTaskList.v"],
+              "C18": [("Proofs/LeafCodeStream.v", "Proofs/LeafCodeTaskList.v"), ("Proofs/LeafCodeWide.v", "Proofs/LeafCodePlan.v"), ("Proofs/LeafCodePlanRemove.v", "Proofs/LeafCodePlanAppend.v"), "Proofs/LeafCodePlanInv.v"],
               "C08": ["Proofs/LeafConsts.v"], "C09": ["Proofs/LeafConsts.v"], "C12": ["Proofs/LeafConsts.v"]}
 
 def _generate(variant, out):
@@ -35,6 +35,8 @@ def recheck_generated(gen_rel, text, dependents, what):
     and its dependents are real files compiled afresh.  Cached by content.  -> dict(ok, detail, dir, output)"""
     # keyed by the regenerated text and by every source of the development (the linked .vo files must be the ones the fresh files are compiled against)
     srcs = sorted(glob.glob(os.path.join(common.COQ, "*", "*.v")))
+    groups = [g if isinstance(g, (tuple, list)) else (g,) for g in dependents]      # a tuple: files independent of each other, compiled side by side
+    dependents = [f for g in groups for f in g]
     key = hashlib.sha256((gen_rel + text + "|".join(dependents) + "".join(open(f).read() for f in srcs if not f.endswith(gen_rel))).encode()).hexdigest()[:16]
     d = os.path.join(common.CACHE, "regen", key); res = os.path.join(d, "result.json")
     if os.path.exists(res): return json.load(open(res))
@@ -51,12 +53,17 @@ def recheck_generated(gen_rel, text, dependents, what):
             else: os.symlink(src, dst)
     open(os.path.join(d, gen_rel), "w").write(text)
     out = dict(ok=True, detail="", dir=d, output="")
-    for f in [gen_rel] + list(dependents):
-        r = subprocess.run(["timeout", "900", "coqc", "-Q", ".", "FFSM2", "-w", "-notation-overridden,-deprecated-hint-without-locality,-deprecated-instance-without-locality", f],
+    def compile_one(f):
+        r = subprocess.run(["timeout", "2700", "coqc", "-Q", ".", "FFSM2", "-w", "-notation-overridden,-deprecated-hint-without-locality,-deprecated-instance-without-locality", f],
                            cwd=d, capture_output=True, text=True)
-        out["output"] = r.stdout[-20000:]
-        if r.returncode != 0:
-            out = dict(ok=False, detail="%s does not check against %s:\n%s" % (f, what, (r.stdout + r.stderr)[-1800:]), dir=d, output=""); break
+        return f, r
+    for g in [(gen_rel,)] + groups:
+        with concurrent.futures.ThreadPoolExecutor(max_workers=len(g)) as ex: rs = list(ex.map(compile_one, g))
+        for f, r in rs:
+            out["output"] = r.stdout[-20000:]
+            if r.returncode != 0:
+                out = dict(ok=False, detail="%s does not check against %s:\n%s" % (f, what, (r.stdout + r.stderr)[-1800:]), dir=d, output=""); break
+        if not out["ok"]: break
     json.dump(out, open(res, "w"))
     return out
 
